@@ -295,18 +295,23 @@ Definition abs_pooled (tk : tkind) (udp : bool) (f : sfault) : option fault :=
   | SSilent | SHalf => Some FSilent
   | SGarbage => Some (if udp then FSilent else FDie)
   | SIdleFin | SIdleRst | SIdleGarbage =>
-      (* the pipelined read loop sees the EOF / error at once and marks the connection closed; the one-at-a-time
-         transport only checks that the socket was not closed locally *)
-      match tk with TPipe => None | _ => Some FDie end
+      (* the pipelined read loop sees the EOF / error at once and marks the connection closed, QuicTransport.getConn
+         checks the connection's context; the one-at-a-time transport only checks that the socket was not closed
+         locally *)
+      match tk with TPipe | TQuic => None | _ => Some FDie end
   | SWriteErr => Some FWriteErr
   | _ => Some FDie
   end.
+
+(* QUIC caches ONE connection and a failing stream does not kill it: getConn hands the same connection out again,
+   so its behaviour is met by every attempt *)
+Definition pool_copies (tk : tkind) : nat := match tk with TQuic => S (retry_limit TQuic) | _ => 1 end.
 
 Fixpoint abs_pool (tk : tkind) (udp : bool) (l : list sfault) : list fault :=
   match l with
   | [] => []
   | f :: r => match abs_pooled tk udp f with
-              | Some a => a :: abs_pool tk udp r
+              | Some a => repeat a (pool_copies tk) ++ abs_pool tk udp r
               | None => abs_pool tk udp r
               end
   end.
@@ -322,6 +327,14 @@ Definition detectable (f : sfault) : bool :=
   | _ => false
   end.
 
-Definition must_succeed (udp : bool) (pool dialf : list sfault) : bool :=
+Definition must_succeed (tk : tkind) (udp : bool) (pool dialf : list sfault) : bool :=
   forallb (fun f => match f with SOk => true | _ => false end) dialf &&
-  forallb (fun f => match f with SOk => true | SGarbage => negb udp | _ => detectable f end) pool.
+  forallb (fun f => match f with
+                    | SOk => true
+                    | SGarbage => negb udp && negb (match tk with TQuic => true | _ => false end)
+                    | SIdleFin | SIdleRst => true
+                    | _ => match tk with
+                           | TQuic => false   (* a server that fails every stream of the live connection is not healthy *)
+                           | _ => detectable f
+                           end
+                    end) pool.
